@@ -429,6 +429,15 @@ theorem C06_source_object_overrides_none :
     Generated.traitDictObjectProg = [] ∧
     Generated.traitDictNotifyParams = ["removed", "added", "changed"] := by decide
 
+/-- **C06_init_source.**  The constructors of `TraitDict` / `TraitDictObject` in
+the working tree are, statement for statement, the ones the model assumes: every
+"was it given?" / "is there an owner?" decision is an `is None` test (a truth
+test instead would ignore falsy validator objects, replace an empty notifier list,
+or disconnect a dict from an alive but falsy owner). -/
+theorem C06_init_source :
+    [Generated.traitDictNewSource, Generated.traitDictInitSource, Generated.traitDictObjectInitSource]
+      = dictConstructorsAssumed := by decide
+
 /-- Non-vacuity: the interpreted source on the F13 input and on an `update` with
 a duplicate key after coercion. -/
 example :
